@@ -195,6 +195,14 @@ pub fn worker(wi: usize, wn: usize, tier: &str) {
         "sequences":st.sequences,"calls":st.calls,"admitted":st.admitted,"refused_tenant":st.refused_tenant,"refused_global":st.refused_global,"windows":st.windows,"states":st.states.iter().collect::<Vec<_>>(),"violations":st.viol.to_json()}));
 }
 
+fn run_server_slice(tier: &str) -> Result<serde_json::Value, String> {
+    let bin = std::env::var("SRVMC_BIN").map_err(|_| "SRVMC_BIN not set (run through bin/check)".to_string())?;
+    let out = vcore::par::output_retry(std::process::Command::new(&bin).arg("C19S").arg(tier).env_remove("LD_PRELOAD")).map_err(|e| format!("cannot run {bin}: {e}"))?;
+    let stdout = String::from_utf8_lossy(&out.stdout);
+    let line = stdout.lines().find_map(|l| l.strip_prefix("C19S-RESULT ")).ok_or_else(|| format!("no result line; exit {:?}; stderr: {}", out.status.code(), String::from_utf8_lossy(&out.stderr)))?;
+    serde_json::from_str(line).map_err(|e| format!("bad result: {e}"))
+}
+
 pub fn run(tier: &str, replay: Option<&str>) -> i32 {
     if !sc::loaded() {
         eprintln!("C19: kvshim not loaded (machinery error)");
@@ -203,6 +211,25 @@ pub fn run(tier: &str, replay: Option<&str>) -> i32 {
     if let Some(p) = replay {
         let v: Value = serde_json::from_str(&std::fs::read_to_string(p).expect("read")).expect("json");
         let c = &v["case"];
+        if c["check"] == "C19S" {
+            let sig = v["signature"].as_str().unwrap_or("").to_string();
+            return match run_server_slice(tier) {
+                Ok(r) => {
+                    if r["violations"].as_array().map(|a| a.iter().any(|x| x["sig"] == sig.as_str())).unwrap_or(false) {
+                        println!("replay: reproduced {sig}");
+                        println!("VIOLATION property=C19 replay={p}");
+                        1
+                    } else {
+                        println!("replay: no violation with signature {sig}");
+                        0
+                    }
+                }
+                Err(e) => {
+                    eprintln!("machinery error: {e}");
+                    2
+                }
+            };
+        }
         if c.get("program").is_some() {
             let prog: crate::c19c::Prog = serde_json::from_value(c["program"].clone()).unwrap();
             sc::ctl(sc::CMD_CLOCK_MODE, 1, 0);
@@ -238,6 +265,17 @@ pub fn run(tier: &str, replay: Option<&str>) -> i32 {
     let res = vcore::par::run_workers(vcore::par::jobs(), &[]);
     let mut ev = Evidence::new("C19", tier, "model_checking");
     let mut rep = Reporter::new("C19");
+    // server-level slice: which limit a tenant is held to is decided in main()'s interceptor
+    match run_server_slice(tier) {
+        Ok(v) => {
+            rep.report_bag(&v["violations"]);
+            ev.set("server_slice", serde_json::json!({"bursts_through_the_real_binary": v["bursts"], "rule": "the REAL server binary with authentication and rate limiting on (server default max_qps_per_connection = 5, max_qps_global = 1000): three tenants (max_qps 5 explicit; max_qps 0 = server default, twice) each send 40 back-to-back Query calls, twice with an idle 1.3 s in between; with the interval measured on the caller's monotonic clock around the burst, admitted <= burst + rate x interval + 1, and the first request of an idle tenant is admitted"}));
+        }
+        Err(e) => {
+            eprintln!("C19: machinery error in the server-level slice: {e}");
+            return 2;
+        }
+    }
     let mut tot = std::collections::BTreeMap::new();
     let mut states: BTreeSet<u64> = BTreeSet::new();
     let mut conc_outcomes: BTreeSet<String> = BTreeSet::new();
